@@ -42,6 +42,9 @@ func c02Claims() []c02Claim {
 		mk("literal-hit", []string{c02Allowed}, l(c02Allowed)),
 		mk("literal-miss", []string{"/other"}, l("/other")),
 		mk("template-hit", []string{"/books/{id}"}, l("/books/{id}")),
+		// several selectors covering the same topic: each topic still has to be covered
+		mk("literal-twice", []string{c02Allowed, c02Allowed}, l(c02Allowed, c02Allowed)),
+		mk("template-and-literal", []string{"/books/{id}", c02Allowed}, l("/books/{id}", c02Allowed)),
 		mk("star-first", []string{"*", "/other"}, l("*", "/other")),
 		mk("star-middle", []string{"/other", "*", "/x"}, l("/other", "*", "/x")),
 		mk("star-last", []string{"/other", "*"}, l("/other", "*")),
